@@ -889,9 +889,14 @@ pub fn run(tier: &str, seed: u64) -> Report {
     let valid = seg.as_ref().filter(|s| Version::parse_standard(s).is_ok());
     batch.push(
       format!("(jsr-urlnv {} {} (valid {}))", satom(REG), satom(url.as_str()), valid.map(|s| satom(s)).unwrap_or_default()),
-      got.as_ref().map(|nv| format!("{} {}", nv.name, seg.clone().unwrap())).unwrap_or("none".into()),
+      got.as_ref().map(|nv| format!("{} {}", nv.name, seg.clone().unwrap_or_else(|| "<not under the registry URL>".into()))).unwrap_or("none".into()),
       false,
     );
+    if let (Some(nv), None) = (&got, &seg) {
+      // a URL that does not begin with the registry URL belongs to no registry package
+      report.fail("oracle", "url-attributed-to-other-package", format!("{} is not under {} and is attributed to {}", url, REG, nv), json!({"url": u}));
+      continue;
+    }
     report.evaluations += 1;
     report.nontrivial.insert(format!("urlnv/{}", got.is_some() as u8));
     if let Some(nv) = &got {
